@@ -24,7 +24,16 @@ TRUSTED = [
     "interval); the virtual-time simulator provides them and every replayed trace is checked against them",
 ]
 ASSUMPTIONS = ["integer-millisecond clock (sub-millisecond float behaviour is not modelled)",
-               "the registry does not change while answers are queued (unregistration is C08's subject)"]
+               "a queued answer whose service is unregistered before its deadline need not (C08: must not) be sent any more: the oracle "
+               "takes the withdrawn records from the scenario's own unregister action, not from the queue",
+               "the registry does not change while a truncated query is being held (candidate answers are read when a packet arrives); "
+               "it does change while answers are queued",
+               "timer callbacks run exactly when due (stage C, every theorem); the scenarios numbered from LATE_BASE run the real responder on a loop "
+               "whose timers fire a seeded 0..3 ms late and are judged by the oracle alone: lower bounds (20 ms, 400 ms, one second) exactly, upper "
+               "bounds (500 ms, 1.2 s, hold 500 ms) plus 3 ms"]
+UNREG_BASE = 1_000_000   # trace scenarios numbered from here unregister services while answers are queued
+LATE_BASE = 2_000_000    # ... from here run on a loop whose timers fire a seeded 0..LATE ms late (oracle only: the model's loop facts exclude it)
+LATE = 3
 
 GRID = [0, 0, 1, 20, 20, 60, 119, 120, 121, 200, 380, 499, 500, 501, 880, 999, 1000, 1001, 1120, 1200]
 T0 = vsim.T0
@@ -76,8 +85,9 @@ def q_state(q, loop, ids):
     return "%s %s" % (gs, tm)
 
 
-def queue_oracle(res, delayed, sends, adds_log, left, case):
-    """the property's sentences on what a real queue sent"""
+def queue_oracle(res, delayed, sends, adds_log, left, case, removals=()):
+    """the property's sentences on what a real queue sent; `removals` = [(time, [record ids])]: `async_remove_answers` calls
+    (registry changes): a record withdrawn between its add and its deadline is not owed any more"""
     addl, agg = (1000, 200) if delayed else (0, 500)
     for (s, ans, adds) in sends:
         if len(set(ans + adds)) != len(ans + adds):
@@ -87,6 +97,8 @@ def queue_oracle(res, delayed, sends, adds_log, left, case):
                 res.violate("C12:queue-window", "record %d sent at %d outside the window of every add that queued it" % (r, s - T0), case)
     for (c, t, rs) in adds_log:
         for r in rs:
+            if any(c <= u <= c + agg + addl and r in rm for (u, rm) in removals):
+                continue
             if not any(r in ans and c <= s <= c + agg + addl for (s, ans, _a) in sends):
                 res.violate("C12:queue-late", "record %d queued at %d not on the wire within %d ms" % (r, c - T0, agg + addl), case)
     if left:
@@ -105,7 +117,7 @@ def replay_queue_ops(res, delayed, ops):
     loop = FakeLoop()
     zc = FakeZc(loop)
     q = mq.MulticastOutgoingQueue(zc, addl, agg)
-    sends, adds_log = [], []
+    sends, adds_log, removals = [], [], []
     draw_box = [20]
 
     def fire():
@@ -120,13 +132,19 @@ def replay_queue_ops(res, delayed, ops):
         steps = 0
         for op in ops:
             tok = op.split()
-            if tok[0] != "a":
+            if tok[0] not in ("a", "r"):
                 continue
-            clock, now, draw, n = int(tok[1]), int(tok[2]), int(tok[3]), int(tok[4])
+            clock = int(tok[1])
             while loop.timers and loop.timers[0] < clock and steps < 1000:
                 steps += 1
                 fire()
             loop.ms = max(loop.ms, clock)
+            if tok[0] == "r":
+                rm = [] if tok[2] == "-" else [int(x) for x in tok[2].split(",")]
+                q.async_remove_answers([recs[i] for i in rm])
+                removals.append((loop.ms, rm))
+                continue
+            now, draw, n = int(tok[2]), int(tok[3]), int(tok[4])
             ans = {}
             for j in range(n):
                 rid, adds = int(tok[5 + 2 * j]), tok[6 + 2 * j]
@@ -138,7 +156,7 @@ def replay_queue_ops(res, delayed, ops):
             steps += 1
             fire()
     res.evaluations += 1
-    queue_oracle(res, delayed, sends, adds_log, len(q.queue), {"stream": "q", "delayed": delayed, "ops": ops})
+    queue_oracle(res, delayed, sends, adds_log, len(q.queue), {"stream": "q", "delayed": delayed, "ops": ops}, removals)
 
 
 def run_queue_stream(ctx, res, n):
@@ -155,8 +173,9 @@ def run_queue_stream(ctx, res, n):
         loop = FakeLoop()
         zc = FakeZc(loop)
         q = mq.MulticastOutgoingQueue(zc, addl, agg)
-        ops, obs, sends, adds_log = [], [], [], []
+        ops, obs, sends, adds_log, removals = [], [], [], [], []
         nops = rng.choice([2, 4, 8, 16, 30])
+        rm_p = rng.choice([0, 0, 0.15, 0.3])  # registry changes (`async_remove_answers`) between the adds
         draw_box = [20]
         with mock.patch.object(mq, "RAND_INT", lambda lo, hi: draw_box[0]), \
                 mock.patch.object(mq, "current_time_millis", lambda: float(loop.ms)):
@@ -187,6 +206,14 @@ def run_queue_stream(ctx, res, n):
                         continue
                 else:
                     loop.ms += gap
+                if rm_p and rng.random() < rm_p:
+                    # a service is unregistered while answers are queued: some records (queued or not, answers or additionals) are withdrawn
+                    rm = sorted(rng.sample(range(len(recs)), rng.choice([1, 2, 2, 4, 6])))
+                    q.async_remove_answers([recs[i] for i in rm])
+                    removals.append((loop.ms, rm))
+                    ops.append("r %d %s" % (loop.ms, C.natlist(rm)))
+                    obs.append(q_state(q, loop, ids))
+                    continue
                 stale = rng.choice([0, 0, 0, 1, 50, 400, 450, 500, 620]) if rng.random() < 0.35 else 0
                 now = loop.ms - stale
                 draw_box[0] = rng.choice([20, 20, 21, 60, 119, 120, 120, rng.randint(20, 120)])
@@ -206,16 +233,18 @@ def run_queue_stream(ctx, res, n):
                 b = fire()
                 obs.append(q_state(q, loop, ids) + " " + b)
         lines.append("c12q %s %d %s" % (C.b01(delayed), len(ops), " ".join(ops)))
-        cases.append((delayed, ops, obs, sends, adds_log, len(q.queue), loop.ms))
+        cases.append((delayed, ops, obs, sends, adds_log, len(q.queue), loop.ms, removals))
     model = None
     if ctx["driver_ok"]:
         try:
             model = C.run_driver(lines)
         except C.DriverUnavailable as ex:
             res.notes.append("driver unavailable: %s" % ex)
-    for i, (delayed, ops, obs, sends, adds_log, left, end) in enumerate(cases):
+    for i, (delayed, ops, obs, sends, adds_log, left, end, removals) in enumerate(cases):
         res.evaluations += 1
         res.count("q:delayed" if delayed else "q:aggregate")
+        if removals:
+            res.count("q:with-removals")
         addl, agg = (1000, 200) if delayed else (0, 500)
         case = {"stream": "q", "delayed": delayed, "ops": ops}
         # ---- C
@@ -234,7 +263,7 @@ def run_queue_stream(ctx, res, n):
         # ---- O: the window, no duplicates, everything sent
         if any(len(s[1]) > 1 or s[2] for s in sends) and len(adds_log) > 2:
             res.nontriv("q/%s/%d/%d" % (delayed, len(adds_log), len(sends)))
-        queue_oracle(res, delayed, sends, adds_log, left, case)
+        queue_oracle(res, delayed, sends, adds_log, left, case, removals)
 
 
 # ------------------------------------------------------------------------------------------
@@ -316,7 +345,8 @@ def run_cls_stream(ctx, res):
 
 def run_scenario(seed, sc_no):
     """-> dict(tr, uni, zc, errors, infos, actions); fully determined by (seed, sc_no)"""
-    sim = vsim.Sim(seed="%s/%s" % (seed, sc_no), maxdelay=0)
+    late = LATE if isinstance(sc_no, int) and sc_no >= LATE_BASE else 0
+    sim = vsim.Sim(seed="%s/%s" % (seed, sc_no), maxdelay=0, max_late=late)
     rng = C.rng_for(seed, "c12", "tr", sc_no)
     jrng = C.rng_for(seed, "c12", "jitter", sc_no)
     sim.net.maxdelay = rng.choice([0, 0, 0, 1, 3, 20])
@@ -329,14 +359,21 @@ def run_scenario(seed, sc_no):
 
     sim.randint = biased
     box = {}
+    unreg_mode = isinstance(sc_no, int) and UNREG_BASE <= sc_no < LATE_BASE
+    box["late"] = late
+    urng = C.rng_for(seed, "c12", "unreg", sc_no)
 
     async def main(sim):
+        import asyncio
+
         from zeroconf import const as k
 
         host = sim.make_host("A", "10.0.0.1")
         zc = host.zc
         await zc.async_wait_for_start()
         infos = R.make_infos(rng)
+        while unreg_mode and len(infos) < 2:  # something must stay registered when a service is withdrawn
+            infos = R.make_infos(rng)
         uni = R.Universe()
         R.seed_universe(uni, infos)
         for inf in infos:
@@ -360,6 +397,40 @@ def run_scenario(seed, sc_no):
                     if o["to"][0] == R.MDNS:
                         return o["t"]
             return None
+
+        registered = list(infos)
+        tries = [0]
+
+        def withdrawn_ids(inf):
+            """what the unregistration of `inf` withdraws, from the scenario's own knowledge (RFC 6762 10.1 / C08): its PTR, SRV,
+            TXT, and the address + NSEC records of its host unless another registered service shares the host"""
+            rs = [inf.dns_pointer(), inf.dns_service(), inf.dns_text()]
+            if not any(o is not inf and o.server.lower() == inf.server.lower() for o in registered):
+                rs += list(inf._get_address_and_nsec_records(None))
+            return sorted({uni.id(r) for r in rs})
+
+        async def unreg_task(inf):
+            # one task step: the checks and everything `async_unregister_service` does before its first suspension (registry,
+            # both `async_remove_answers`) happen in one atomic block
+            # (the last service stays: with an empty registry the listener drops every query before the responder sees it --
+            #  `registry.has_entries`, outside the model)
+            if inf not in registered or len(registered) < 2:
+                return
+            # the candidate answers of a packet are an input of the model, read when the packet arrives: while a truncated query is
+            # being held the registry is left alone (ASSUMPTIONS); the withdrawal happens a few ms after the hold ends
+            if host.transport.protocol._deferred:
+                tries[0] += 1
+                if tries[0] < 1500:
+                    sim.loop.call_later(0.003, do_unreg, inf)
+                return
+            ids_ = withdrawn_ids(inf)
+            registered.remove(inf)
+            actions.append(("unreg", sim.loop.ms - T0, inf.name, ids_))
+            box.setdefault("unregs", []).append((sim.loop.ms, ids_))
+            await zc.async_unregister_service(inf)
+
+        def do_unreg(inf):
+            asyncio.ensure_future(unreg_task(inf))
 
         nqueries = rng.choice([1, 2, 3, 4, 6, 8])
         for _ in range(nqueries):
@@ -426,6 +497,11 @@ def run_scenario(seed, sc_no):
                 data, _qs, _qus = R.build_query(rng, infos, uni, next_id(), probe=probe)
                 host.deliver(data, (src, port))
                 actions.append(("q", now - T0, src, port, data.hex()))
+            if unreg_mode and len(registered) >= 2 and urng.random() < 0.45:
+                # the registry changes while the answers to this query (and earlier ones) are queued: offsets around the jitter,
+                # aggregation and protection bounds
+                off = urng.choice([0, 0, 1, 19, 20, 60, 119, 120, 121, 300, 499, 500, 501, 900, 1019, 1100, 1199, 1201])
+                sim.loop.call_later(off / 1000.0, do_unreg, urng.choice(registered))
         await sim.sleep_ms(9000)
         box["end_t"] = sim.loop.ms
         tr.uninstall()
@@ -451,7 +527,9 @@ def spec_classes(tr, b, parsed_by_data):
     # the packets the reply must be based on: all distinct packets delivered by this source (`tc_pass`), which is what
     # the listener assembled unless it lost some -- then `tc_pass` has already reported it
     pkts = [parsed_by_data[d] for d in (b.get("want") or asm["datas"])]
-    seen = {i: (c, ttl) for (i, c, ttl) in asm["seen"]}
+    # "the host saw the record multicast": the copy in the cache whatever scope id it carries (`seen_blind`, provided by reply_common
+    # once the IPv6-only host of wp-C11DEEP is merged: D29); until then the store entry under the record's own key
+    seen = {i: (c, ttl) for (i, c, ttl) in asm.get("seen_blind", asm["seen"])}
     probe = any(p["num_auth"] > 0 for p in pkts)
     known = {}
     for p in pkts:
@@ -460,8 +538,14 @@ def spec_classes(tr, b, parsed_by_data):
                 known.setdefault(rid, set()).add(ttl)
     t_last, t_first, c = asm["last_now"], asm["first_now"], b["t"]
     legacy = asm["port"] != 5353
-    nq0 = pkts[0]["nq"]
-    q0 = pkts[0]["q0type"]
+    # Reading (Props/C12.lean, header): a truncated train is ONE query; it has arrived when its last packet has.  "A query consisting of a
+    # single SRV, A, AAAA or NSEC question" is therefore judged on all questions of all packets of the train -- the code looks at the
+    # first packet only (`msgs[0]._questions`); where the two differ the oracle follows the sentence and reports the finding
+    imm = (33, 1, 28, 47)
+    nq_all = sum(p["nq"] for p in pkts)
+    single = next((p["q0type"] for p in pkts if p["nq"] == 1), None) if nq_all == 1 else None
+    spec_now = single in imm
+    code_now = pkts[0]["nq"] == 1 and pkts[0]["q0type"] in imm
     out = []  # (rid, class, info)
     for p in pkts:
         for qu, cands in p["items"]:
@@ -494,15 +578,16 @@ def spec_classes(tr, b, parsed_by_data):
                     cls = "prot"
                 elif free:
                     cls = "free"
-                elif nq0 == 1 and q0 in (33, 1, 28, 47):
+                elif spec_now:
                     cls = "now"
                 else:
                     cls = "agg"
-                out.append((rid, cls, dict(seen=s, held_sighting=held_sighting, in1s=in1s, probe=probe, dontcare=dontcare, qu=qu, t_first=t_first, t_last=t_last, c=c)))
+                out.append((rid, cls, dict(seen=s, held_sighting=held_sighting, in1s=in1s, probe=probe, dontcare=dontcare, qu=qu, t_first=t_first, t_last=t_last, c=c,
+                                           adds=list(_adds), seen_all=seen, npkts=len(pkts), code_now=code_now, first_packet_rule=(code_now != spec_now))))
     return out
 
 
-def tc_pass(res, tr, blocks, case, end_t):
+def tc_pass(res, tr, blocks, case, end_t, late=0):
     """Truncated queries, judged from what was *delivered* (not from what the listener chose to keep):
     every distinct TC packet of a source is held; the hold ends 400..500 ms after the last distinct packet, or at once
     when a packet without TC arrives from that source; all held packets (plus that one) are answered together, once.
@@ -553,7 +638,7 @@ def tc_pass(res, tr, blocks, case, end_t):
                 res.violate("C12:tc-assembly", "truncated-query timer fired although nothing of this source is pending", at)
             else:
                 b["want"] = want
-                if not (400 <= t - last_t[addr] <= 500):
+                if not (400 <= t - last_t[addr] <= 500 + late):
                     res.violate("C12:tc-hold", "truncated query answered %d ms after its last distinct packet (400..500 required)" % (t - last_t[addr]), at)
                 if not b["asm"] or b["asm"]["datas"] != want:
                     res.violate("C12:tc-assembly", "reply based on %s packet(s); %d distinct packets of this source were pending" % (
@@ -567,13 +652,15 @@ def tc_pass(res, tr, blocks, case, end_t):
 def check_trace_O(res, box, case):
     tr = box["tr"]
     blocks = tr.blocks
+    L = box.get("late", 0)  # timers may run up to L ms late in this run: upper bounds get that slack, lower bounds none
+    tc_pass(res, tr, blocks, case, box.get("end_t", blocks[-1]["t"] if blocks else 0), L)
+    # what a datagram asks for is read when it arrives (the registry may change later: the same bytes delivered again after an
+    # unregistration have other candidate answers), so the table is filled in block order and consulted at each assembly
     parsed_by_data = {}
-    for b in blocks:
-        if b["kind"] == "rx" and b.get("parsed"):
-            parsed_by_data[b["data"]] = b["parsed"]
-    tc_pass(res, tr, blocks, case, box.get("end_t", blocks[-1]["t"] if blocks else 0))
     asms = []
     for i, b in enumerate(blocks):
+        if b["kind"] == "rx" and b.get("parsed"):
+            parsed_by_data[b["data"]] = b["parsed"]
         if b["asm"] and b["asm"]["npkts"]:
             asms.append((i, b, spec_classes(tr, b, parsed_by_data)))
     mcasts = []  # (block index, time, answers, adds)
@@ -585,11 +672,19 @@ def check_trace_O(res, box, case):
     for (i, s, ans, add) in mcasts:
         if len(set(ans + add)) != len(ans + add):
             res.violate("C12:duplicate-in-batch", "a multicast reply carries a record twice", case)
-    # ---- everything classified is sent in its window
+    # ---- everything classified is sent in its window -- unless its service is unregistered before the window closes (the
+    # scenario's own unregister actions, `box["unregs"]`: then the record is no longer owed, and C08 forbids sending it)
+    unregs = box.get("unregs", [])
+
+    def withdrawn(rid, lo, hi):
+        return any(lo <= u <= hi and rid in ids_ for (u, ids_) in unregs)
+
     for (i, b, classes) in asms:
         c = b["t"]
         for rid, cls, info in classes:
             if info["dontcare"]:
+                continue
+            if cls in ("agg", "free", "prot") and withdrawn(rid, c, c + (500 if cls == "agg" else 1200)):
                 continue
             what = None
             if cls in ("now", "qu-now"):
@@ -598,28 +693,53 @@ def check_trace_O(res, box, case):
                 if not any(j == i and rid in ans for (j, s, ans, _a) in mcasts):
                     what = "answer %s of a probe / single SRV,A,AAAA,NSEC question / stale QU question not multicast in the arrival block" % tr.uni.describe(rid)
                     sig = "C12:not-immediate"
+                    if cls == "now" and not info["probe"] and info["first_packet_rule"] and not info["code_now"]:
+                        what = ("truncated train of %d packets whose only question (SRV/A/AAAA/NSEC) is not in its first packet: answer %s is aggregated instead of "
+                                "being sent at once (the single-question test reads the first packet only)" % (info["npkts"], tr.uni.describe(rid)))
+                        sig = "C12:train-first-packet-question-rule"
             elif cls == "agg":
-                if not any(j >= i and c <= s <= c + 500 and rid in ans for (j, s, ans, _a) in mcasts):
+                if not any(j >= i and c <= s <= c + 500 + L and rid in ans for (j, s, ans, _a) in mcasts):
                     what = "answer %s not multicast within 500 ms of the query" % tr.uni.describe(rid)
                     sig = "C12:aggregate-late"
             elif cls == "free":
-                if not any(j >= i and c <= s <= c + 1200 and rid in ans for (j, s, ans, _a) in mcasts):
+                if not any(j >= i and c <= s <= c + 1200 + L and rid in ans for (j, s, ans, _a) in mcasts):
                     what = "answer %s not multicast within 1.2 s of the truncated query being answered" % tr.uni.describe(rid)
                     sig = "C12:protected-late"
             elif cls == "prot":
                 # (that no multicast of it is *caused* by this query before sighting + 1 s is the justification rule below;
                 #  an earlier query's batch may legitimately carry it sooner -- DESIGN §7 C12)
-                if not any(j >= i and c <= s <= c + 1200 and rid in ans for (j, s, ans, _a) in mcasts):
+                if not any(j >= i and c <= s <= c + 1200 + L and rid in ans for (j, s, ans, _a) in mcasts):
                     what = "answer %s (seen %d ms before the query) not multicast within 1.2 s of the query" % (
                         tr.uni.describe(rid), info["t_last"] - info["seen"][0])
                     sig = "C12:protected-late"
             if what:
                 res.violate(sig, what, dict(case, at_ms=c - T0))
+    # ---- the one-second clause for records that travel as ADDITIONALS of a reply (the sentence says "a record ... is not multicast
+    # again", whichever section).  The code never tests additionals (FINDING): reported for the reply of the query itself -- a datagram
+    # that carries the query's answer `rid` and, as an additional, a record seen less than a second before the query arrived
+    for (i, b, classes) in asms:
+        for rid, cls, info in classes:
+            if info["probe"] or info["dontcare"] or cls == "ucast":
+                continue
+            t_arr = info["t_last"]
+            for x in info["adds"]:
+                sx = info["seen_all"].get(x)
+                if sx is None or not (sx[0] <= t_arr and t_arr - sx[0] < 1000):
+                    continue
+                hit = next(((j, m) for (j, m, ans, add) in mcasts if j >= i and rid in ans and x in add and t_arr <= m < sx[0] + 1000), None)
+                if hit is not None:
+                    res.violate("C12:additional-remulticast-within-1s",
+                                "%s was seen multicast at %d ms; a query arrived at %d ms (%d ms later); its reply at %d ms carries %s as an additional of %s, "
+                                "%d ms after the sighting (additionals are never subject to the one-second protection)" % (
+                                    tr.uni.describe(x), sx[0] - T0, t_arr - T0, t_arr - sx[0], hit[1] - T0, tr.uni.describe(x), tr.uni.describe(rid),
+                                    hit[1] - sx[0]), dict(case, at_ms=hit[1] - T0))
     # ---- every multicast answer has a cause
     for (j, s, ans, _add) in mcasts:
         for rid in ans:
             ok = False
             d12 = None
+            finding = None
+            cause = None  # the query (its classification record) that justifies this transmission
             for (i, b, classes) in asms:
                 if i > j:
                     break
@@ -627,26 +747,68 @@ def check_trace_O(res, box, case):
                 for r2, cls, info in classes:
                     if r2 != rid:
                         continue
+                    just = False
                     if cls == "now" and i == j:
-                        ok = True
+                        just = True
+                    elif cls == "now" and i < j and not info["probe"] and info["first_packet_rule"] and not info["code_now"] and info["t_first"] + 20 <= s <= c + 500 + L:
+                        # FINDING (the other half): the train's only question is not in its first packet, the code aggregates the answer
+                        finding = finding or ("C12:train-first-packet-question-rule",
+                                              "truncated train of %d packets whose only question (SRV/A/AAAA/NSEC) is not in its first packet: %s is aggregated and multicast at "
+                                              "%d ms instead of being sent at once at %d ms" % (info["npkts"], tr.uni.describe(rid), s - T0, c - T0))
                     elif cls == "qu-now" and i == j:
                         if info["in1s"] and not info["probe"]:
                             d12 = info
                         else:
-                            ok = True
-                    elif cls == "agg" and i < j and info["t_first"] + 20 <= s <= c + 500:
-                        ok = True
-                    elif cls == "prot" and i < j and info["t_first"] + 1020 <= s <= c + 1200 and s >= info["seen"][0] + 1000:
-                        ok = True
-                    elif cls == "free" and i <= j and c <= s <= c + 1200:
-                        ok = True
+                            just = True
+                    elif cls == "agg" and i <= j and info["t_last"] + 20 <= s <= c + 500 + L:
+                        # (i == j: a held train answered in the block in which its hold ends, at least 400 ms after its last packet)
+                        just = True
+                    elif cls == "agg" and i == j and s < info["t_last"] + 20 and info["first_packet_rule"] and info["code_now"]:
+                        # FINDING: a train with several questions whose FIRST packet holds a single SRV/A/AAAA/NSEC question is answered at
+                        # once, all of it, without the 20-120 ms delay
+                        finding = finding or ("C12:train-first-packet-question-rule",
+                                              "truncated train of %d packets with several questions in all, completed by an untruncated packet at %d ms and answered in that very "
+                                              "block because its FIRST packet consists of a single SRV/A/AAAA/NSEC question: %s multicast without the 20-120 ms delay" % (
+                                                  info["npkts"], s - T0, tr.uni.describe(rid)))
+                    elif cls == "agg" and i < j and info["npkts"] > 1 and info["t_first"] + 20 <= s < info["t_last"] + 20 and s <= c + 500 + L:
+                        # FINDING: the reply to a train completed by an untruncated packet is stamped with the FIRST packet's arrival, so a
+                        # timer that is already due sends it less than 20 ms after the query (its last packet) arrived
+                        finding = finding or ("C12:train-reply-before-jitter",
+                                              "%s answers a truncated train (first packet %d ms, last packet %d ms) and is multicast at %d ms, %d ms after the query was complete "
+                                              "(no earlier than 20 ms is required; the queue entry is stamped with the first packet's arrival)" % (
+                                                  tr.uni.describe(rid), info["t_first"] - T0, info["t_last"] - T0, s - T0, s - info["t_last"]))
+                    elif cls == "prot" and i < j and info["t_last"] + 20 <= s <= c + 1200 + L and s >= info["seen"][0] + 1000:
+                        just = True
+                    elif cls == "free" and i <= j and c <= s <= c + 1200 + L:
+                        just = True
                     elif info["dontcare"]:
-                        ok = True
+                        just = True
+                    if just and not ok:
+                        ok, cause = True, (i, info)
             if ok:
+                # The sentence on its own words: the transmission has a cause, but for ANOTHER query that had arrived by then (non-probe,
+                # QM) the host had seen this record less than a second before that query arrived -- "is not multicast again until at least
+                # one second after that sighting".  The code does not hold back a group that an earlier query queued (FINDING).
+                if not cause[1]["probe"]:
+                    for (i2, b2, classes2) in asms:
+                        if i2 > j or i2 == cause[0]:
+                            continue
+                        hit = next((inf2 for (r2, cls2, inf2) in classes2 if r2 == rid and cls2 == "prot" and not inf2["probe"]
+                                    and inf2["t_last"] <= s < inf2["seen"][0] + 1000), None)
+                        if hit is not None:
+                            res.violate("C12:pending-batch-remulticast-within-1s",
+                                        "%s was seen multicast at %d ms; a query asking for it arrived at %d ms (%d ms later, classified 'seen in the last second'); "
+                                        "the reply to an EARLIER query (handled at %d ms, group already pending) multicasts it at %d ms, %d ms after the sighting" % (
+                                            tr.uni.describe(rid), hit["seen"][0] - T0, hit["t_last"] - T0, hit["t_last"] - hit["seen"][0],
+                                            blocks[cause[0]]["t"] - T0, s - T0, s - hit["seen"][0]), dict(case, at_ms=s - T0))
+                            break
+                continue
+            if finding is not None:
+                res.violate(finding[0], finding[1], dict(case, at_ms=s - T0))
                 continue
             held = next((info for (i, b2, classes) in asms if i < j for (r2, cls, info) in classes
                          if r2 == rid and cls == "prot" and info["held_sighting"]
-                         and info["t_first"] + 1020 <= s <= b2["t"] + 1200 and s < info["seen"][0] + 1000), None)
+                         and info["t_first"] + 1020 <= s <= b2["t"] + 1200 + L and s < info["seen"][0] + 1000), None)
             if held is not None and d12 is None:
                 res.violate("C12:held-query-remulticast-within-1s",
                             "%s was seen multicast at %d ms, while a truncated query (first packet %d ms, last packet %d ms) was being held; the reply to that query "
@@ -667,13 +829,17 @@ def check_trace_O(res, box, case):
 
 
 def trace_case(seed, sc_no, box):
-    return {"stream": "tr", "seed": seed, "scenario": sc_no,
+    return {"stream": "tr", "seed": seed, "scenario": sc_no, "unregisters": sc_no >= UNREG_BASE if isinstance(sc_no, int) else False,
             "services": [(i.name, i.server, i.host_ttl, i.other_ttl) for i in box.get("infos", [])], "actions": box.get("actions")}
 
 
-def run_trace_stream(ctx, res, n, only=None):
+def run_trace_stream(ctx, res, n, only=None, n_extra=None):
     lines, boxes = [], []
-    todo = only if only is not None else [(ctx["seed"], k) for k in range(n)]
+    # n ordinary scenarios, plus n/8 in which services are unregistered while answers are queued (numbered from UNREG_BASE)
+    # (the two extra families are not multiplied when the search is widened: they are slower per scenario)
+    ne = n if n_extra is None else n_extra
+    todo = only if only is not None else [(ctx["seed"], k) for k in range(n)] + [(ctx["seed"], UNREG_BASE + k) for k in range(ne // 8)] + \
+        [(ctx["seed"], LATE_BASE + k) for k in range(ne // 16)]
     for (seed, sc_no) in todo:
         box = run_scenario(seed, sc_no)
         if "tr" not in box:
@@ -705,9 +871,18 @@ def run_trace_stream(ctx, res, n, only=None):
             # the watchdog silenced the host: the code under test kept the event loop busy without letting time advance
             res.violate("C12:timer-livelock", "the responder stopped making progress: %s; whatever was queued is never sent (the harness muted the host to terminate)" % (
                 tr.dead or box.get("timeout")), case)
-        if tr.orphans:
-            res.notes.append("sends outside any block in scenario %s/%s: %d" % (seed, sc_no, len(tr.orphans)))
-        if model is not None:
+        stray = [o for o in tr.orphans if not R.is_goodbye(o["data"])]
+        if stray:
+            res.notes.append("sends outside any block in scenario %s/%s: %d" % (seed, sc_no, len(stray)))
+        if box.get("unregs"):
+            res.count("tr:unregister-scenarios")
+            res.count("tr:withdrawals", sum(1 for b in tr.blocks if b["kind"] == "rm"))
+            res.count("tr:withdrawals-of-queued-answers", sum(1 for b in tr.blocks if b["kind"] == "rm" and b.get("hit")))
+            if any(b["kind"] == "rm" and b.get("hit") for b in tr.blocks):
+                res.nontriv("tr-unreg/%d/%d" % (sum(1 for b in tr.blocks if b["kind"] == "rm" and b.get("hit")), len(box["unregs"])))
+        if box.get("late"):
+            res.count("tr:late-timer-scenarios (oracle only)")
+        if model is not None and not box.get("late"):
             parts = model[idx].split(" | ")
             head, mobs = parts[0], parts[1:]
             if mobs == [""]:
@@ -749,6 +924,8 @@ def run_corpus(ctx, res):
             run_d12(res)
         elif kind == "q":
             replay_queue_ops(res, body["delayed"], body["ops"])
+        elif kind == "script":
+            run_script(res, body)
 
 
 def run_d12(res):
@@ -792,6 +969,72 @@ def run_d12(res):
     check_trace_O(res, box, {"stream": "d12", "services": [("s0._a._tcp.local.", "h0.local.", 3, 3)], "actions": box["actions"]})
 
 
+def run_script(res, body):
+    """a fixed scenario (corpus kind "script"): one service `s0._a._tcp.local.` on `h0.local.` (10.0.0.1, TTLs 120/4500), registered 5 s
+    before `t0`; actions, times relative to t0:  ["q", t, source, [[name, type], ...], qu, tc=false]  |  ["poke", t, name, type]  (the
+    host sees the service's record of that name/type multicast by somebody else at t); "draws": the library's random draws, in order"""
+    import socket
+
+    sim = vsim.Sim(seed="script", maxdelay=0)
+    if body.get("draws"):
+        sim.forced_draws = iter(list(body["draws"]))
+    box = {}
+
+    async def main(sim):
+        from zeroconf import ServiceInfo
+
+        host = sim.make_host("A", "10.0.0.1")
+        zc = host.zc
+        await zc.async_wait_for_start()
+        info = ServiceInfo("_a._tcp.local.", "s0._a._tcp.local.", 80, addresses=[socket.inet_aton("10.0.0.1")], server="h0.local.")
+        uni = R.Universe()
+        R.seed_universe(uni, [info])
+        t = await zc.async_register_service(info)
+        await t
+        await sim.sleep_ms(5000)
+        tr = R.Trace(sim, host, uni)
+        tr.install()
+        box.update(tr=tr, uni=uni, infos=[info], zc=zc)
+        t0 = sim.now()
+        rng = C.rng_for(0, "c12-script")
+        qid = 100
+        for act in body["actions"]:
+            await sim.sleep_until(t0 + act[1])
+            if act[0] == "q":
+                qid += 1
+                data, _q, _u = R.build_query(rng, [info], uni, qid, questions=[tuple(x) for x in act[3]], qus=[bool(act[4])] * len(act[3]), known_p=0,
+                                             tc=bool(act[5]) if len(act) > 5 else False)
+                host.deliver(data, (act[2], 5353))
+            elif act[0] == "poke":
+                r = next(r for r in uni.recs if r.name.lower() == act[2].lower() and r.type == act[3])
+                e = R.with_ttl(r, int(r.ttl))
+                e.created = float(sim.loop.ms)
+                zc.cache.async_add_records([e])
+                tr.pokes.append((sim.loop.ms, uni.id(r)))
+        await sim.sleep_ms(4000)
+        box["end_t"] = sim.loop.ms
+        tr.uninstall()
+        await vsim.close_host(host)
+
+    sim.run(main)
+    tr = box["tr"]
+    evs = []
+    for b in tr.blocks:
+        b["draws_tc"] = any(lo == 400 for (lo, hi, v) in b["draws"])
+        evs.append(R.block_line(tr, box["zc"], b))
+        b["obs"] = R.block_obs(tr, b)
+    res.evaluations += 1
+    case = {"stream": "script", "actions": body["actions"], "draws": body.get("draws")}
+    if C.DRIVER.exists():
+        try:
+            m = C.run_driver(["c12run %d %s" % (len(evs), " ".join(evs))])[0].split(" | ")
+            if not m[0].startswith("ok") or [x for x in m[1:] if x != ""] != [b["obs"] for b in tr.blocks]:
+                res.disagree("c12run", case, [b["obs"] for b in tr.blocks][:6], m[:7])
+        except C.DriverUnavailable:
+            pass
+    check_trace_O(res, box, case)
+
+
 class _Result(C.Result):
     """keeps at most three cases per signature so that one (known) finding cannot crowd out another violation"""
 
@@ -812,13 +1055,14 @@ def run(ctx):
                 "boundaries, library jitter biased to both ends); non-trivial = distinct shape (block kinds, #assemblies, #multicasts) with at least one reply")
     bq = C.Budget(ctx["tier"], 6000, 120000).n
     bt = C.Budget(ctx["tier"], 2000, 40000).n
+    bt0 = bt
     if ctx["widened"]:
         bq *= 3
         bt *= 3
     run_corpus(ctx, res)
     run_cls_stream(ctx, res)
     run_queue_stream(ctx, res, bq)
-    run_trace_stream(ctx, res, bt)
+    run_trace_stream(ctx, res, bt, n_extra=bt0)
     return res
 
 
@@ -835,6 +1079,8 @@ def replay(body):
         res.violations = [v for v in res.violations if all(v["case"].get(k) == case.get(k) for k in case)]
     elif case.get("stream") == "q":
         replay_queue_ops(res, case["delayed"], case["ops"])
+    elif case.get("stream") == "script":
+        run_script(res, case)
     else:
         return {"violates": None, "note": "unknown case"}
     return {"violates": bool(res.violations), "violations": [dict(sig=v["sig"], what=v["what"]) for v in res.violations[:5]],
